@@ -176,7 +176,11 @@ func SolveAll(workDir string, obls []*Obligation, timeoutS, par int) {
 				o.Result, o.Solver = "unsat", "trivial"
 				return
 			}
-			r := Solve(workDir, o.Name, o.Script, timeoutS, nil)
+			t := timeoutS
+			if o.Cover {
+				t = 2 // covers/canaries only need "not unsat"
+			}
+			r := Solve(workDir, o.Name, o.Script, t, nil)
 			o.Result, o.Solver, o.Ms = r.res, r.solver, r.ms
 			if r.res == "sat" || r.res == "error" {
 				o.Model = r.out
